@@ -59,6 +59,23 @@ class Engine:
         self.stats['queries'] += 1
         return r
 
+    def _bb_check(self, extra):
+        """second opinion for a branch the incremental core could not decide: bit-blasting tactic on a fresh solver"""
+        if self.theory != 'bv':
+            return z3.unknown
+        t = time.time()
+        try:
+            fs = z3.Then('simplify', 'solve-eqs', 'bit-blast', 'sat').solver()
+            fs.set('timeout', max(self.final_timeout_ms, 120000))
+            fs.add(self.solver.assertions())
+            fs.add(extra)
+            return fs.check()
+        except z3.Z3Exception:
+            return z3.unknown
+        finally:
+            self.stats['solver_s'] += time.time() - t
+            self.stats['queries'] += 1
+
     def begin_path(self, prefix):
         Engine.cur = self
         self.solver.reset()
@@ -67,6 +84,7 @@ class Engine:
         self.hashes = []
         self.inputs = {}
         self.ufs_seen = {}
+        self.uf_apps = []
         self.stats['paths'] += 1
         if self.stats['paths'] > self.max_paths:
             raise PathLimit()
@@ -98,7 +116,11 @@ class Engine:
             return taken
         self.stats['decisions'] += 1
         rt = self._check(cond)
+        if rt == z3.unknown:
+            rt = self._bb_check(cond)
         rf = self._check(z3.Not(cond))
+        if rf == z3.unknown:
+            rf = self._bb_check(z3.Not(cond))
         if rt == z3.unknown or rf == z3.unknown:
             self.stats['inconclusive'] += 1
             raise Inconclusive('solver unknown while deciding a branch')
@@ -184,6 +206,33 @@ class Engine:
                 self.solver.pop()
         finally:
             self.stats['solver_s'] += time.time() - t
+
+    def generic_model(self, extra):
+        """a model of pc /\\ extra in which uninterpreted functions do not collide by accident (different arguments
+        give different results): such models are far more likely to reproduce on the real primitive.  None if there is none."""
+        apps = self.uf_apps
+        if len(apps) < 2:
+            return None
+        cons = []
+        for i in range(len(apps)):
+            for j in range(i + 1, len(apps)):
+                if apps[i][0] == apps[j][0]:
+                    cons.append(z3.Implies(apps[i][1] != apps[j][1], apps[i][2] != apps[j][2]))
+        if not cons:
+            return None
+        self.solver.push()
+        try:
+            self.solver.add(extra)
+            self.solver.add(*cons)
+            self.solver.set('timeout', 10000)
+            if self.solver.check() == z3.sat:
+                return self.solver.model()
+            return None
+        except z3.Z3Exception:
+            return None
+        finally:
+            self.solver.pop()
+            self.solver.set('timeout', 20000)
 
     def fresh_bv(self, name, n):
         v = z3.BitVec(name, n)
@@ -1126,4 +1175,7 @@ def uf_bytes(name, arg, out_len):
     n = len(a)
     f = z3.Function(f'{name}_{n}', z3.BitVecSort(max(8 * n, 1)), z3.BitVecSort(8 * out_len))
     abv = a.bits.bv() if n else z3.BitVecVal(0, 1)
-    return mkbytes(Bits.of_bv(f(abv)))
+    out = f(abv)
+    if eng is not None:
+        eng.uf_apps.append((f'{name}_{n}', abv, out))
+    return mkbytes(Bits.of_bv(out))
